@@ -95,9 +95,13 @@ class ListMapModel(Model):
 
     PRELUDE = {
         "ints": 'l1: [int...] = []\na1 = l1\nl2: [int...] = [1]\n'
-                'inc = fn(x: int) -> int {\n\treturn x + 1\n}\nev = fn(x: int) -> bool {\n\treturn x % 2 == 0\n}\n',
+                'inc = fn(x: int) -> int {\n\treturn x + 1\n}\nev = fn(x: int) -> bool {\n\treturn x % 2 == 0\n}\n'
+                # callbacks that change the list they are iterating over (the iteration is live: element i is read when its turn comes, it ends when i >= len)
+                + "".join(f'{nm}{how} = fn(x: int) -> {rt} {{\n\t{mut}\n\treturn {rv}\n}}\n'
+                          for nm, rt, rv in (("ev", "bool", "x % 2 == 0"), ("inc", "int", "x + 1"))
+                          for how, mut in (("clr", "l1.clear()"), ("rm", "if l1.len() > 0 {\n\t\tl1.remove(0)\n\t}"), ("pu", "if l1.len() < 3 {\n\t\tl1.push(2)\n\t}"))),
         "strs": 's1: [str...] = ["a"]\nsa = s1\nup = fn(x: str) -> str {\n\treturn x + "!"\n}\nisb = fn(x: str) -> bool {\n\treturn x == "b"\n}\n',
-        "opts": 'o1: [int?...] = [nil]\noa = o1\n',
+        "opts": 'o1: [int?...] = [nil]\noa = o1\nbsrc: [int...] = [5, 1, 2]\n',
         "nested": 'in0: [int...] = [1]\nn1: [[int...]...] = [in0, []]\nn2: [[int...]...] = []\n',
         "maps": 'm1 = map[str, int]\nma = m1\nm2 = map[str, int]\nm2["a"] = 1\n',
         "xfer": 'l1: [int...] = [1, 2]\nl2: [int...] = []\nm1 = map[str, int]\nidf = fn(x: int) -> int {\n\treturn x\n}\n'
@@ -145,6 +149,8 @@ class ListMapModel(Model):
                                 out.append(("opset", name, i, "%=", 2))
                 if full:
                     out += [("reverse", name), ("clear", name), ("map", name), ("filter", name), ("len", name), ("str", name)]
+                    if n:
+                        out += [(k, name, how) for k in ("filter_mut", "map_mut") for how in ("clr", "rm", "pu")]
                     for v in (0, 2):
                         out.append(("index_of", name, v))
             out += [("clone", "l2", "l1"), ("clone", "a1", "l1"), ("alias", "a1", "l2"), ("alias", "l2", "l1"),
@@ -172,6 +178,8 @@ class ListMapModel(Model):
             n = len(lst.items)
             if n < CAP:
                 out += [("push", "o1", None), ("push", "oa", 1)]
+                # a PRESENT optional handed out by a built-in arrives boxed: as an element it must behave like the plain value (==, index_of, reads)
+                out += [("pushbox", "o1", 1), ("pushbox", "o1", None)]
             for i in self.idx_set(n):
                 out += [("read", "o1", i), ("remove", "o1", i), ("set", "oa", i, None), ("set", "o1", i, 2), ("isnil", "o1", i), ("nilis", "o1", i)]
             out += [("reverse", "o1"), ("index_of", "o1", 1), ("index_of", "o1", None), ("index_of", "oa", 2), ("clone", "oa", "o1"), ("len", "oa"), ("eq", "o1", "oa")]
@@ -311,6 +319,25 @@ class ListMapModel(Model):
                 obs.append(show(L([x for x in st[op[1]].items if x % 2 == 0])))
             else:
                 obs.append(show(L([x for x in st[op[1]].items if x == "b"])))
+        elif k == "pushbox":
+            st[op[1]].items.append(op[2])
+        elif k in ("filter_mut", "map_mut"):
+            items, res, i = st[op[1]].items, [], 0
+            while i < len(items):
+                x = items[i]
+                i += 1
+                if op[2] == "clr":
+                    items.clear()
+                elif op[2] == "rm":
+                    if items:
+                        items.pop(0)
+                elif len(items) < CAP:
+                    items.append(2)
+                if k == "map_mut":
+                    res.append(x + 1)
+                elif x % 2 == 0:
+                    res.append(x)
+            obs.append(show(L(res)))
         elif k == "index_of":
             it = st[op[1]].items
             obs.append(show(it.index(op[2]) if op[2] in it else None))
@@ -448,6 +475,12 @@ class ListMapModel(Model):
             s = f"print {op[1]}.map({'inc' if tpl == 'ints' else 'up'})\n"
         elif k == "filter":
             s = f"print {op[1]}.filter({'ev' if tpl == 'ints' else 'isb'})\n"
+        elif k == "pushbox":
+            s = f"{op[1]}.push(bsrc.index_of({1 if op[2] == 1 else 9}))\n"
+        elif k == "filter_mut":
+            s = f"print {op[1]}.filter(ev{op[2]})\n"
+        elif k == "map_mut":
+            s = f"print {op[1]}.map(inc{op[2]})\n"
         elif k == "index_of":
             s = f"print {op[1]}.index_of({lit(op[2])})\n"
         elif k == "len":
@@ -619,7 +652,7 @@ class C13(EHistCheck):
     rule = ("breadth-first search over operation histories on five container templates (int lists with an alias and an independent list; "
             "string lists; lists of optionals; nested lists with an aliased inner list; maps with an alias and an independent map); alphabet: "
             "push, remove / read / index assignment / op-assignment at indices {-1, 0, len-1, len}, reverse, clear, clone, re-aliasing, join (as a statement, with its result bound to a name, with a call chained onto its result), "
-            "map, filter, index_of, len, ==, to_str concatenation; maps: literal, read, index assignment, op-assignment, replace, remove, "
+            "map, filter (also with callbacks that clear / shorten / extend the list being iterated), index_of, len, ==, to_str concatenation; maps: literal, read, index assignment, op-assignment, replace, remove, "
             "contains_key, len, keys, values, pairs, clear, clone; a sixth template TRANSFERS values between a list, a second list and a map by every form there is (map literal, list literal, "
             "index assignment, push, replace, map() with the identity, through a function that returns an element, out of a map entry into a list) and then writes the slot they came from.  Values in {0,1,2}, list length capped at 3 by the alphabet.  States are "
             "de-duplicated on the canonical model heap (entities renamed by first reachability, map entries sorted); every transition is "
